@@ -116,7 +116,7 @@ CHECKS = {
     technique='property-based differential/metamorphic testing: bit-identity with plain integration; error-scale ladder for first-order agreement of the two filters; run-twice bit-identity',
     text='(a) generated schedules whose samples all lie outside the span (or None/[]) x time steps x sensor models x modes: feedback trajectory bit-identical to Integrator.integrate; (b) unit error realisation scaled by s in {1,...,1e-3}: '
          'disagreement with the feedforward filter in sigma units must shrink (x0.5 then x0.2 per decade + 0.1) and end below 0.2 (sigma tables 0.02); (c) both filters re-run with the same model objects are bit-identical. Exploration.',
-    note='(b) is coarse by nature: it certifies shrinking down to a floor of 0.1 sigma caused by the error model\'s documented omissions (measured, see DESIGN 4b), evaluated at speeds <= 30 m/s; it detects O(1) sigma disagreements.',
+    note='(b) is coarse by nature: it certifies shrinking down to a floor of 0.1 sigma caused by the error model\'s documented omissions (measured, see DESIGN 4b), evaluated at speeds <= 30 m/s; it detects O(1) sigma disagreements. Epoch placement (on / between IMU samples, first interval, initial time), lever arms and a banked turn are generated; one known finding (between-sample epochs leave a 0.1..0.45 sigma floor: zero-order hold of the feedforward state) is judged against a 1.0 sigma allowance and reported as KNOWN-FINDING.',
     design='DESIGN.md section 4 and 4b, C12'),
  'C19': dict(
     technique='property-based testing over a registry of public callables: deep argument snapshots, run-twice bit-identity, form agreement, schema predicates; generated call sequences with re-issued calls',
